@@ -9,7 +9,8 @@ fields; and the canonical assignments form the parent-linked chain of a stored h
 Tie: correspondence stream `posa` of harness hlc (the real handlers on a real native service + CacheDB, really sealed
 headers over 16 secp256k1 keys, five routers) against drv_lc (the compiled model; ecrecover and hashes abstract).
 Search: the harness evaluates C29 directly on every stored header with an independent reference (plain parent walk).
-Stream `posamsc`: the msc (clique) handler, harness + independent clique reference only (no model, no theorem).
+Stream `posamsc`: the msc (clique-style) handler against the model Poly.Model.LCPosa.Msc (theorems msc_*; the signer-set
+theorem is partial: membership in the snapshot the code's walk computes) and against an independent clique reference.
 """
 
 
@@ -28,8 +29,8 @@ def run(ctx):
     ctx.cov["trusted_base"] += ["harness hlc/posa + drv_lc (correspondence check)", "Lean compiler for the driver",
                                 "go-ethereum crypto (secp256k1 sign / recover) used by the harness to seal headers"]
     ctx.cov["not_covered"] = [
-        "msc (clique-style snapshot light client with vote tally): NOT modelled in Lean; stream posamsc drives the real handler and "
-        "judges it with an independent clique reference only (no theorem covers msc)",
+        "msc: the equivalence of the code's walk over LastVoteParentOrEpoch links with a plain replay of the votes over the parent "
+        "chain is NOT proved (Props def msc_signer_in_effect_set); it is exercised by the harness reference only",
         "polygon bor (spans + snapshots + Heimdall span proofs): not modelled, not driven",
         "heco EIP-1559 branch (is120 && !needFix): not driven",
         "uint64 / int64 wrap-around of header numbers above 2^63",
@@ -42,7 +43,8 @@ def run(ctx):
     if hbin:
         res = ctx.correspondence("posa", hbin, ["posa"], drv, ["posa"])
         ctx.judge(res, theorem_hint="Poly.Props.C29.* (model Poly.Model.LCPosa no longer matches the PoSA header-sync handlers)")
-        # msc (clique-style): no Lean model; the real handler is judged by the independent clique reference of the harness
-        res = ctx.correspondence("posamsc", hbin, ["posamsc"], None)
-        ctx.judge(res)
+        # msc (clique-style): model Poly.Model.LCPosa.Msc (snapshot walk, vote tally, recent search, addHeader); every stored
+        # header is also judged by the independent clique reference of the harness (plain replay of the parent chain)
+        res = ctx.correspondence("posamsc", hbin, ["posamsc"], drv, ["posamsc"])
+        ctx.judge(res, theorem_hint="Poly.Props.C29.msc_* (model Poly.Model.LCPosa.Msc no longer matches the msc header-sync handler)")
     ctx.judge_lean()
